@@ -48,19 +48,30 @@ func VerifH_C09_CKKSBinaryOpsAliasing() {
 	c, eval := vSetup()
 	params := c.Params
 	r := params.RingQ()
-	for _, level := range []int{params.MaxLevel(), 1} {
+	type cse struct {
+		level  int
+		sa, sb float64
+		tag    string
+	}
+	cases := []cse{{params.MaxLevel(), 256, 256, ""}, {1, 256, 256, ""}, {params.MaxLevel(), 65536, 256, "-scales-65536-256"}, {params.MaxLevel(), 256, 65536, "-scales-256-65536"}}
+	for _, cs := range cases {
+		level := cs.level
 		for _, op := range vBinOps() {
-			tag := op.name + "-L" + vItoa(level)
-			a := vAtomCiphertext(c, 1, level, "a", 256)
-			b := vAtomCiphertext(c, 1, level, "b", 256)
+			if cs.tag != "" && op.name != "Add" && op.name != "Sub" {
+				continue
+			}
+			tag := op.name + "-L" + vItoa(level) + cs.tag
+			a := vAtomCiphertext(c, 1, level, "a", cs.sa)
+			b := vAtomCiphertext(c, 1, level, "b", cs.sb)
 			a0, b0 := a.CopyNew(), b.CopyNew()
 			ref := NewCiphertext(params, op.deg, level)
 			vAssert(op.run(eval, a, b, ref) == nil, tag+"-no-error")
 			vCtEq(r, a, a0, tag+"-first-operand-unchanged")
 			vCtEq(r, b, b0, tag+"-second-operand-unchanged")
 			// an output that previously held a larger ciphertext with other content (degree 2, maximum level)
+			// (equal-scale cases only: the unequal-scale ones run into the same recorded defect F38)
 			used := vAtomCiphertext(c, 2, params.MaxLevel(), "junk", 7)
-			if op.run(eval, a, b, used) == nil {
+			if cs.tag == "" && op.run(eval, a, b, used) == nil {
 				vAssert(used.Level() == level, tag+"-used-output-takes-the-operand-level")
 				if used.Level() == level {
 					vAssertPolyEq(r.AtLevel(level), vPhase(c, used), vPhase(c, ref), tag+"-result-independent-of-previous-output-content")
